@@ -30,8 +30,8 @@ def row_split_explains(before, after):
     rowid, cellid = {}, {}
     table, last = 0, None
     for w, c in before:
-        cell = c["cell"]
-        if cell is None or c.get("caption"):
+        cell = c.get("outer")                   # the cell of the outermost table (a nested table moves as a whole)
+        if cell is None:
             if last is not None:
                 table += 1
             last = None
